@@ -334,8 +334,17 @@ func main() {
 	for _, k := range consts {
 		v := c.constVal(k.pkg, k.name)
 		if v == nil {
+			// keep the models compiling (so that the drivers can still search for a failing input);
+			// the run is reported as "no longer shown" because `missing` is not empty
 			c.miss = append(c.miss, k.pkg+"."+k.name)
-			c.emit("-- MISSING constant %s.%s\n", k.pkg, k.name)
+			switch k.kind {
+			case "nat":
+				c.emit("def %s : Nat := 0 -- MISSING constant %s.%s\n", k.lean, k.pkg, k.name)
+			case "int":
+				c.emit("def %s : Int := 0 -- MISSING constant %s.%s\n", k.lean, k.pkg, k.name)
+			case "str":
+				c.emit("def %s : String := \"\" -- MISSING constant %s.%s\n", k.lean, k.pkg, k.name)
+			}
 			continue
 		}
 		switch k.kind {
